@@ -22,14 +22,15 @@ ASSUME = [
     "encoders (harness/c03/builder.go, harness/ref); TLA+ contributes the laws, the case space and the expected "
     "abstract result",
     "canonical TBSCertificates only (DER, RFC 5280 time rule: UTCTime through 2049, GeneralizedTime from 2050); "
-    "extension lists of length <= 4 (quick) / 5 (thorough) over 8 extension kinds, at most one AKI",
+    "extension lists of length <= 4 (quick) / 5 (thorough) over 8 extension kinds, at most one AKI; AKI forms: keyIdentifier only, keyIdentifier + authorityCertIssuer + "
+    "authorityCertSerialNumber, issuer + serial without keyIdentifier (pre-issuer), absent",
     "named clauses recording the unchanged code where RFC 6962 is silent: EmptyExtensionsKept, AkiDropped, "
     "AkiAppended, AkiAbsent",
 ]
 
 
 def corrupt(cases):
-    """Three corrupted expectations (the harness must flag each): order, content, verdict."""
+    """Four corrupted expectations (the harness must flag each): order, AKI content (twice), verdict."""
     out = []
     for c in cases:
         if c["build"]["k"] == "tbs" and len(c["build"]["exts"]) >= 2 and c["c"]["mode"] == "direct" \
@@ -50,6 +51,16 @@ def corrupt(cases):
             out.append(x)
             break
     for c in cases:
+        if c["clause"] == "AkiReplaced" and c["c"]["preAki"] == "k2full" and c["embedded"]["k"] == "entry" \
+                and c["build"]["k"] == "tbs":
+            x = copy.deepcopy(c)
+            for t in (x["build"], x["chain"]["tbs"], x["finalrmsct"], x["embedded"]["tbs"]):
+                for e in t["exts"]:
+                    if e[0] == "AKI":
+                        e[2] = "k2"     # as if only the key identifier of the pre-issuer's AKI were carried over
+            out.append(x)
+            break
+    for c in cases:
         if c["rmpoison"]["k"] == "err" and c["rmpoison"]["why"] == "multiple":
             x = copy.deepcopy(c)
             x["rmpoison"] = copy.deepcopy(x["t"])
@@ -57,7 +68,7 @@ def corrupt(cases):
             del x["rmpoison"]["exts"][i]      # as if the first of two poisons were to be removed
             out.append(x)
             break
-    if len(out) != 3:
+    if len(out) != 4:
         raise Infra("could not build the canary cases")
     return out
 
